@@ -235,6 +235,9 @@ impl<T: WrappedKey> Occupied<T> for OccupiedEntry<'_, T> {
     type Error = Error;
 
     fn get(&self) -> Result<T, Self::Error> {
+        // The descriptor is shared by every call, so always
+        // read from the start of the file.
+        fs::seek(&self.fd.0, fs::SeekFrom::Start(0))?;
         Ok(cbor::from_reader(&self.fd)?)
     }
 
